@@ -50,7 +50,7 @@ var c20Filters = []c20Filter{
 	{"IncludeState(false)", compile.IncludeState(false)},
 }
 
-func (p *c20) NumCases(tier string, seed int64) int { return tierN(tier, 400, 10000) }
+func (p *c20) NumCases(tier string, seed int64) int { return tierN(tier, 1000, 40000) }
 
 func c20Gen(seed int64, idx int) *yang.ModSet {
 	r := core.CaseRng(seed, "C20", idx)
